@@ -66,6 +66,11 @@ func hostileCorpus(seed int64) ([][]byte, map[string]reflect.Type) {
 		[]byte{0x7a, 0x79, 0x51, 0x91, 0x51, 0x90},                   // list of (list holding itself, outer list)
 		[]byte{0x71, 0x04, 0x5b, 0x69, 0x6e, 0x74, 0x51, 0x90},       // typed list [int holding itself
 		[]byte{0x48, 0x48, 0x51, 0x91, 0x51, 0x90, 0x5a, 0x91, 0x5a}, // map keyed by a map that refers to both
+		// cyclic untyped containers handed to TYPED destinations (type names the type map knows)
+		[]byte{0x7a, 0x51, 0x90, 0x71, 0x06, '[', 'i', 'n', 't', '3', '2', 0x51, 0x90}, // [self, [int32 holding the outer list]
+		[]byte{0x71, 0x06, '[', 'i', 'n', 't', '3', '2', 0x79, 0x51, 0x91},             // [int32 holding a list that holds itself
+		[]byte{0x71, 0x07, '[', 's', 't', 'r', 'i', 'n', 'g', 0x79, 0x51, 0x91},        // [string ...
+		[]byte{0x79, 0x71, 0x06, '[', 'i', 'n', 't', '6', '4', 0x51, 0x90},             // list holding [int64 holding the list
 	)
 	return out, tm
 }
